@@ -10,6 +10,7 @@ package c15
 // fed with the criteria this request carries and the host metadata in force.
 
 import (
+	"context"
 	"encoding/json"
 	"fmt"
 	"sort"
@@ -23,7 +24,9 @@ import (
 	v2 "mosn.io/mosn/pkg/config/v2"
 	_ "mosn.io/mosn/pkg/filter/stream/headertometadata"
 	"mosn.io/mosn/pkg/server"
+	"mosn.io/mosn/pkg/types"
 	"mosn.io/mosn/pkg/upstream/cluster"
+	"mosn.io/pkg/variable"
 	"pgregory.net/rapid"
 
 	"verif/ev"
@@ -40,6 +43,10 @@ type e2eReq struct {
 	Hdr   map[string]string `json:"headers,omitempty"` // key -> value carried in header x-m-<key>
 	// Update: before this request the cluster's hosts are replaced by the same addresses with this metadata
 	Update []map[string]string `json:"host_update,omitempty"`
+	// Re: a stream filter of the after-choose-host phase rewrites these keys of the request's own metadata once a host has
+	// been chosen and asks for the host to be chosen again (api.StreamFilterReChooseHost): the second choice has to follow
+	// the metadata the request carries THEN
+	Re map[string]string `json:"rechoose_with,omitempty"`
 }
 
 type e2eMissing struct {
@@ -121,6 +128,9 @@ func genE2E(rt *rapid.T) *e2eCase {
 				r.Hdr = nil
 			}
 		}
+		if rapid.IntRange(0, 4).Draw(rt, "rechoose") == 0 {
+			r.Re = map[string]string{rapid.SampledFrom(e2eKeys).Draw(rt, "reKey"): rapid.SampledFrom([]string{"x", "y", "w"}).Draw(rt, "reVal")}
+		}
 		if i > 0 && rapid.IntRange(0, 7).Draw(rt, "update") == 0 {
 			for j := 0; j < n; j++ {
 				r.Update = append(r.Update, genMeta(rt, "uhost", metaVals[:2], true))
@@ -186,7 +196,7 @@ func runE2E(t *rapid.T, c *e2eCase) {
 		rules = append(rules, map[string]interface{}{"header": "x-m-" + c.Missing.Key, "on_header_missing": map[string]interface{}{"key": c.Missing.Key, "value": c.Missing.Value}})
 	}
 	opts := mesh.Opts{Down: "Http1", Up: "Http1", Hosts: addrs, Timeout: 5 * time.Second,
-		StreamFilters: []v2.Filter{{Type: "header_to_metadata", Config: map[string]interface{}{"request_rules": rules}}},
+		StreamFilters: []v2.Filter{{Type: "header_to_metadata", Config: map[string]interface{}{"request_rules": rules}}, {Type: reFilterType, Config: map[string]interface{}{}}},
 		Cluster: func(cl *v2.Cluster) {
 			cl.LbType = v2.LbType(c.LbType)
 			cl.LBSubSetConfig = v2.LBSubsetConfig{FallBackPolicy: c.Fallback, DefaultSubset: c.Default, SubsetSelectors: c.Selectors}
@@ -285,6 +295,21 @@ func runE2E(t *rapid.T, c *e2eCase) {
 				q.Criteria[k] = v
 			}
 		}
+		if r.Re != nil && len(model(spec, &q).Set) > 0 { // (without a host at the first choice the request ends there, the filter never runs)
+			// the first choice has merged the route's pairs into the request's metadata; the filter then overwrites its keys
+			if q.NilKind != 0 {
+				q.NilKind, q.Criteria = 0, map[string]string{}
+			}
+			c2 := map[string]string{}
+			for k, v := range q.Criteria {
+				c2[k] = v
+			}
+			for k, v := range r.Re {
+				c2[k] = v
+			}
+			q.Criteria = c2
+			classes["re-choose-host-with-rewritten-metadata"] = true
+		}
 		if len(varMeta) == 0 && prevCarried {
 			classes["plain-request-after-one-that-carried-metadata"] = true
 			nontrivial = true
@@ -306,6 +331,13 @@ func runE2E(t *rapid.T, c *e2eCase) {
 		hdr := [][2]string{{mesh.TokenHeader, token}}
 		for _, k := range sortedKeys(r.Hdr) {
 			hdr = append(hdr, [2]string{"x-m-" + k, r.Hdr[k]})
+		}
+		if r.Re != nil {
+			var kv []string
+			for _, k := range sortedKeys(r.Re) {
+				kv = append(kv, k+"="+r.Re[k])
+			}
+			hdr = append(hdr, [2]string{reHeader, strings.Join(kv, ",")})
 		}
 		before := make([]int, n)
 		for i, u := range ups {
@@ -372,4 +404,50 @@ func runE2E(t *rapid.T, c *e2eCase) {
 	}
 	ev.Case(partE2E, nontrivial, canon, func() interface{} { return c }, cls...)
 	ev.Extra(partE2E, "requests", int64(len(c.Reqs)))
+}
+
+// ---- the re-choose filter: after a host has been chosen it rewrites keys of the request's own metadata (as a filter
+// that inspects the chosen host may) and asks once for the choice to be made again.
+
+const (
+	reFilterType = "c15_rechoose"
+	reHeader     = "x-re-choose"
+)
+
+func init() {
+	api.RegisterStream(reFilterType, func(map[string]interface{}) (api.StreamFilterChainFactory, error) { return reFactory{}, nil })
+}
+
+type reFactory struct{}
+
+func (reFactory) CreateFilterChain(ctx context.Context, cb api.StreamFilterChainFactoryCallbacks) {
+	cb.AddStreamReceiverFilter(&reFilter{}, api.AfterChooseHost)
+}
+
+type reFilter struct {
+	done bool
+	h    api.StreamReceiverFilterHandler
+}
+
+func (f *reFilter) OnDestroy()                                                  {}
+func (f *reFilter) SetReceiveFilterHandler(h api.StreamReceiverFilterHandler) { f.h = h }
+func (f *reFilter) OnReceive(ctx context.Context, headers api.HeaderMap, buf api.IoBuffer, trailers api.HeaderMap) api.StreamFilterStatus {
+	v, ok := headers.Get(reHeader)
+	if !ok || f.done {
+		return api.StreamFilterContinue
+	}
+	f.done = true
+	meta := map[string]string{}
+	if cur, err := variable.Get(ctx, types.VarRouterMeta); err == nil && cur != nil {
+		if m, ok := cur.(map[string]string); ok {
+			meta = m
+		}
+	}
+	for _, kv := range strings.Split(v, ",") {
+		if i := strings.IndexByte(kv, '='); i > 0 {
+			meta[kv[:i]] = kv[i+1:]
+		}
+	}
+	_ = variable.Set(ctx, types.VarRouterMeta, meta)
+	return api.StreamFilterReChooseHost
 }
